@@ -110,6 +110,35 @@ Proof.
   split; [vm_compute; reflexivity|]. vm_compute. discriminate.
 Qed.
 
+(** The literal reading of the property: the substituted rule converted in a FRESH scope, for what a
+    trace provides -- a ground substitution that covers every variable of the rule -- and a rule
+    without [\exists].  The only residue of the scope is the numbering of the sort variables. *)
+Theorem C20_convert_subst_commutes_fresh : forall S k sc1 p t sc2 d,
+  convert S scope0 k = Some (sc1, p) ->
+  forallb (fun xv => ground (snd xv)) t = true ->
+  convert_substs S sc1 t = Some (sc2, d) ->
+  List.length (sc_meta sc1) <= 100 ->
+  no_exists k = true ->
+  (forall x s, In (x, s) (kevars k) -> assoc x t <> None) ->
+  convert S scope0 (ksubst t k) = Some (mkScope [] (sc_sort sc1), inst d p).
+Proof. exact convert_subst_commutes_fresh_thm. Qed.
+Print Assumptions C20_convert_subst_commutes_fresh.
+
+Example C20_convert_subst_commutes_fresh_nonvacuous :
+  let k := KRewrites (SortVar "R") (kg kX (kf kY)) (kg kY kX) in
+  let t := [("Y", kf ka); ("X", kb)] in
+  exists sc1 p d,
+    convert Sig1 scope0 k = Some (sc1, p) /\ convert_substs Sig1 sc1 t = Some (sc1, d)
+    /\ no_exists k = true /\ (forall x s, In (x, s) (kevars k) -> assoc x t <> None)
+    /\ convert_pattern Sig1 (ksubst t k) = Some (inst d p) /\ sc_sort sc1 = ["R"].
+Proof.
+  eexists. eexists. eexists. split; [vm_compute; reflexivity|]. split; [vm_compute; reflexivity|].
+  split; [reflexivity|]. split.
+  - intros x s Hin. simpl in Hin.
+    repeat (destruct Hin as [Hin|Hin]; [inversion Hin; subst; simpl; discriminate|]). contradiction.
+  - split; vm_compute; reflexivity.
+Qed.
+
 (** the bound is needed: with 101 variables, instantiating the 101st also rewrites the sort parameter *)
 Theorem C20_convert_subst_commutes_unbounded_refuted :
   exists S k sc1 p t d,
